@@ -49,4 +49,8 @@ func init() {
 			}
 		}
 	}
+	// hooks of package sync's initialiser into the runtime: nothing to do in the engine (sync.Pool itself is
+	// not modelled: its methods need further runtime hooks and stay unsupported)
+	externals["sync.runtime_registerPoolCleanup"] = func(fr *frame, args []value) value { return nil }
+	externals["sync.runtime_notifyListCheck"] = func(fr *frame, args []value) value { return nil }
 }
